@@ -92,6 +92,7 @@ func (o *once) Read(p []byte) (int, error) {
 
 type spec struct {
 	early   bool     // client side: the handler returns at once, so the server half-closes first
+	fails   bool     // client side: the handler fails at once, so the server terminates the stream first
 	side    string   // "client" | "server"
 	actors  []string // S1 S2 CS CL CA NX (client) ; S1 S2 ERR (server)
 	stallAt int
@@ -102,6 +103,9 @@ func (s spec) String() string {
 	if s.early {
 		e = " handler-returns-first"
 	}
+	if s.fails {
+		e = " handler-fails-first"
+	}
 	return fmt.Sprintf("%s actors=%s stall=%d%s", s.side, strings.Join(s.actors, ","), s.stallAt, e)
 }
 
@@ -111,6 +115,9 @@ func scenario(cfg wl.Config, sp spec) *mc.Scenario {
 		handler := func(env *wl.Env, stream drpc.Stream, rpc string) error {
 			if sp.early && rpc == "/w" {
 				return nil // the server half-closes before the client does anything
+			}
+			if sp.fails && rpc == "/w" {
+				return errors.New("refused") // the server terminates the stream while the client is still sending
 			}
 			if sp.side == "client" || rpc != "/w" {
 				// drain and answer nothing: the subject is what the client writes
@@ -231,7 +238,7 @@ func basePlans(tier string) []mc.Plan {
 	two := func(soft bool, split, wb int) wl.Config {
 		return wl.Config{Soft: soft, Pipe: tr.Options{Cap: -1, TwoStep: true}, SplitSize: split, WriterBuf: wb}
 	}
-	cfgs := []wl.Config{two(false, 2, 1), two(true, 2, 1), two(true, 0, 0)}
+	cfgs := []wl.Config{two(false, 2, 1), two(true, 2, 1), two(true, 0, 0), two(true, 0, 8)}
 	if tier == "thorough" {
 		cfgs = append(cfgs, two(false, 2, 8), two(true, 2, 8), two(false, 0, 0))
 	}
@@ -266,6 +273,11 @@ func basePlans(tier string) []mc.Plan {
 				}
 				ps = append(ps, mc.Plan{Scen: scenario(cfg, spec{side: "client", actors: c, stallAt: -1, early: true}), Bounds: b2, Split: len(b2) > 2})
 			}
+		}
+		// the peer terminates the stream while a send is between two of its transport writes (a writer
+		// buffer that frames do not fill evenly); the next RPC must still start on a frame boundary
+		for _, c := range [][]string{{"S1", "NX"}, {"S1", "S2", "NX"}, {"S1", "CL", "NX"}} {
+			ps = append(ps, mc.Plan{Scen: scenario(cfg, spec{side: "client", actors: c, stallAt: -1, fails: true}), Bounds: []int{0, 1}})
 		}
 		if tier == "thorough" {
 			for _, c := range combos(clientActors, 4) {
